@@ -101,4 +101,7 @@ def write_results():
 
 
 if __name__ == "__main__":
-    main()
+    try:
+        main()
+    finally:
+        subprocess.run([V + "/regen_gen.sh"])   # the scratch-tree runs rewrote coq/theories/Gen: put /repo's back
